@@ -133,6 +133,18 @@ def build_problem(rng, small=False):
     if rng.random() < 0.5:
         P['setup_sub']['Dump']['interval'] = 0.05
     P['setup'].pop('param_update_tol', None)
+    # options whose handling has state that could leak between constructions
+    if rng.random() < 0.5:
+        P['power']['scaling'] = float(wl.choose(rng, [0.5, 2.0, 3.0]))
+        P['power'].pop('total_power', None)
+    elif rng.random() < 0.4:
+        P['power']['total_power'] = float(rng.uniform(0.5, 2.0) * 1e5)
+    if rng.random() < 0.5:
+        L = P['length']
+        P['setup']['axial_plane'] = [float(x) for x in np.round(
+            np.sort(rng.uniform(0.05, 0.95, int(rng.integers(1, 4)))) * L, 4)]
+    feats['scaling'] = P['power'].get('scaling')
+    feats['axial_plane'] = bool(P['setup'].get('axial_plane'))
     return P, feats
 
 
@@ -284,7 +296,7 @@ def audit_entries(workdir):
     return ent
 
 
-def write_multi(P, d, n_tp, parallel, n_cpu):
+def write_multi(P, d, n_tp, parallel, n_cpu, share_csv=False):
     Q = copy.deepcopy(P)
     Q['setup'] = dict(Q['setup'])
     Q['setup']['parallel'] = bool(parallel)
@@ -292,11 +304,23 @@ def write_multi(P, d, n_tp, parallel, n_cpu):
         Q['setup']['n_cpu'] = int(n_cpu)
     path = gen.render(Q, d)
     names = ['power.csv']
+    rr = np.random.default_rng([int(Q['power'].get('seed', 0)), n_tp, 99])
     for i in range(1, n_tp):
+        if share_csv and i == n_tp - 1:
+            # the same file named by two time points
+            names.append(names[0])
+            continue
         Qi = copy.deepcopy(Q)
         Qi['power']['seed'] = int(Q['power'].get('seed', 0)) + 1000 * i
+        # a different axial segmentation per time point
+        L = Q['length']
+        inner = sorted(set(float(x) for x in np.round(
+            rr.uniform(0.1, 0.9, int(rr.integers(1, 4))) * L, 3)))
+        Qi['power']['zb'] = [0.0] + inner + [L]
         for sp in Qi['power']['asm'].values():
             sp['total'] = sp['total'] * (1.0 + 0.2 * i)
+            sp['axial'] = [1.0] * (len(Qi['power']['zb']) - 1)
+            sp['zero_cells'] = []
         nm = 'power_tp%d.csv' % (i + 1)
         gen.write_power_csv(Qi, os.path.join(d, nm))
         names.append(nm)
@@ -310,14 +334,15 @@ def run_schedule(case, res):
     rng = np.random.default_rng(case['seed'])
     P, feats = build_problem(rng, small=True)
     n_tp = int(rng.integers(2, 5))
-    key = {'n_tp': n_tp}
+    share = bool(rng.random() < 0.5)
+    key = {'n_tp': n_tp, 'share_csv': share}
     ref = {}
     with drive.scratch() as base:
         # reference: every time point alone (single-time-point input)
         for i in range(n_tp):
             d = os.path.join(base, 'alone%d' % i)
             os.makedirs(d)
-            path, names = write_multi(P, d, n_tp, False, None)
+            path, names = write_multi(P, d, n_tp, False, None, share)
             txt = open(path).read().replace(
                 'user_power = ' + ', '.join(names),
                 'user_power = ' + names[i])
@@ -332,7 +357,7 @@ def run_schedule(case, res):
         for name, par, ncpu in schedules:
             d = os.path.join(base, name)
             os.makedirs(d)
-            write_multi(P, d, n_tp, par, ncpu)
+            write_multi(P, d, n_tp, par, ncpu, share)
             rc, log = run_cli(d, 'input.txt', int(rng.integers(1, 1000)))
             res.check('S0_schedule_run_completes', rc == 0,
                       'command-line run (%s, %d time points) exited %d: %s'
